@@ -226,6 +226,24 @@ def _show(v):
     return str(v)[:120]
 
 
+def _show_change(x, y):
+    """old -> new; for two arrays of the same dtype and shape the entries that differ"""
+    if x is not None and y is not None and x[0] == y[0] == 'ndarray' and x[1:3] == y[1:3]:
+        try:
+            u = np.frombuffer(x[3], dtype=x[1])
+            v = np.frombuffer(y[3], dtype=y[1])
+            same = (u == v)
+            if u.dtype.kind in 'fc':
+                same = same | (np.isnan(u) & np.isnan(v))
+            idx = np.nonzero(~same)[0]
+            if len(idx):
+                return (f'{x[1]}{list(x[2])}: {len(idx)} of {u.size} entries differ, flat positions {idx[:4].tolist()}: '
+                        f'{np.array2string(u[idx[:4]], precision=4)} -> {np.array2string(v[idx[:4]], precision=4)}')
+        except Exception:
+            pass
+    return f'{_show(x)} -> {_show(y)}'
+
+
 def fp_diff(a, b):
     """list of (normalised component, description) where fingerprints a (before) and b (after) differ"""
     res, done = [], set()
@@ -235,18 +253,8 @@ def fp_diff(a, b):
             if n in done:
                 continue
             done.add(n)
-            res.append((n, f'{k}: {_show(a.get(k))} -> {_show(b.get(k))}'))
+            res.append((n, f'{k}: ' + _show_change(a.get(k), b.get(k))))
     return res
-
-
-_DATA_MARKS = ('dissimilarities', 'measurements', '.rdm', 'evaluations', 'noise_ceiling', 'variances')
-
-
-def _is_data_component(comp):
-    """a data array (vs a descriptor value) changed?"""
-    if 'descriptors' in comp:
-        return False
-    return True
 
 
 # =====================================================================================================
@@ -634,12 +642,6 @@ def _s_rdms_init(P, v, rec):
 @spec('rdm.rdms.RDMs.__getitem__')
 def _s_getitem(P, v, rec):
     return [dict(idx=1), dict(idx=[0, 2]), dict(idx=np.array([2, 2, 0])), None][min(v, 3)]
-
-
-def _by(P, kind):
-    if P.flavour == 'plain':
-        return 'index'
-    return 'conds' if kind == 'pattern' else 'subj'
 
 
 @spec('rdm.rdms.RDMs.subset_pattern', 'rdm.rdms.RDMs.subsample_pattern')
@@ -1168,14 +1170,6 @@ def _s_family(P, v, rec):
 # ---- inference ------------------------------------------------------------------------------------------
 def _n(P, kind):
     return 'index' if P.flavour == 'plain' else ('conds' if kind == 'pattern' else 'subj')
-
-
-def _inf_models(P, v):
-    if v % 3 == 0:
-        return P.models(('fixed', 'fixed'))
-    if v % 3 == 1:
-        return P.model('fixed')
-    return P.models(('fixed', 'weighted'))
 
 
 def _inf_data(P):
